@@ -44,6 +44,29 @@ pub fn tokens_to_line(tokens: &Tokens) -> String {
 /// vec!["echo foo", "&&", "echo bar", ";", "echo end"]
 /// >>> line_to_cmds("man awk | grep version");
 /// vec!["man awk | grep version"]
+/// The blanks around a command are not part of it -- except a blank that is
+/// escaped (`a\ `): that one is a character of the last argument.
+fn trim_command(text: &str) -> String {
+    let is_blank = |c: char| c == ' ' || c == '\t' || c == '\n' || c == '\r';
+    let chars: Vec<char> = text.chars().collect();
+    let mut start = 0;
+    while start < chars.len() && is_blank(chars[start]) {
+        start += 1;
+    }
+    let mut end = chars.len();
+    while end > start && is_blank(chars[end - 1]) {
+        let mut backslashes = 0;
+        while end - 1 > start + backslashes && chars[end - 2 - backslashes] == '\\' {
+            backslashes += 1;
+        }
+        if backslashes % 2 == 1 {
+            break;
+        }
+        end -= 1;
+    }
+    chars[start..end].iter().collect()
+}
+
 pub fn line_to_cmds(line: &str) -> Vec<String> {
     // Special characters: http://tldp.org/LDP/abs/html/special-chars.html
     let mut result = Vec::new();
@@ -113,7 +136,7 @@ pub fn line_to_cmds(line: &str) -> Vec<String> {
                 sep.push(c);
                 continue;
             } else if c.to_string() == sep {
-                let _token = token.trim().to_string();
+                let _token = trim_command(&token);
                 if !_token.is_empty() {
                     result.push(_token);
                 }
@@ -128,7 +151,7 @@ pub fn line_to_cmds(line: &str) -> Vec<String> {
         }
         if c == ';' {
             if sep.is_empty() {
-                let _token = token.trim().to_string();
+                let _token = trim_command(&token);
                 if !_token.is_empty() {
                     result.push(_token);
                 }
@@ -142,7 +165,7 @@ pub fn line_to_cmds(line: &str) -> Vec<String> {
         }
         token.push(c);
     }
-    let _token = token.trim().to_string();
+    let _token = trim_command(&token);
     if !_token.is_empty() {
         result.push(_token);
     }
